@@ -87,7 +87,7 @@ def late_reply_concurrent_compressed(rng, ident):
     first is cancelled (or succeeds), then replies naming ITS sequence number - as seen on the wire - arrive late / again:
     they must find nothing to write into"""
     ct = 1
-    s = ["call/c1/%s/%s/%d/-/0/nowait" % (scn.M.hex(), scn.T(scn.arg(1, 200000 + rng.below(40000))), ct), "sleep/%d" % rng.choice([0, 1, 1]),
+    s = ["call/c1/%s/%s/%d/-/0/nowait" % (scn.M.hex(), scn.T(scn.arg(1, 900000 + rng.below(100000))), ct), "sleep/%d" % rng.choice([1, 2, 3]),
          scn.call(2, nowait=True), "waitwrites/2", "settle"]
     if rng.chance(2, 3):
         s += [scn.cancel(1), "sample/atreturn", "replyto/1/%s/%d" % (scn.T(scn.arg(1, 5)), ct), "settle", "replyto/1/%s/%d" % (scn.T(scn.arg(7, 9)), ct), "settle"]
